@@ -17,10 +17,10 @@ func init() {
 }
 
 var profiles = map[string]vh.GenProfile{
-	"C01": {MinOps: 5, MaxOps: 14, MaxNodes: 2, MaxSess: 3, Negative: 2, Reports: 2, RuleChurn: 8, Reassoc: 2},
-	"C04": {MinOps: 10, MaxOps: 40, MaxNodes: 3, MaxSess: 12, Negative: 8, Reports: 3, RuleChurn: 3, Reassoc: 3, SeidClasses: true},
-	"C05": {MinOps: 10, MaxOps: 35, MaxNodes: 3, MaxSess: 8, Negative: 3, Reports: 4, RuleChurn: 8, Reassoc: 3, ExtraSock: true},
-	"C08": {MinOps: 8, MaxOps: 30, MaxNodes: 3, MaxSess: 6, Negative: 10, Reports: 2, RuleChurn: 4, Reassoc: 2, ExtraSock: true},
+	"C01": {MinOps: 5, MaxOps: 14, MaxNodes: 2, MaxSess: 3, Negative: 2, Reports: 2, RuleChurn: 8, Reassoc: 2, Takeover: true},
+	"C04": {MinOps: 10, MaxOps: 40, MaxNodes: 3, MaxSess: 12, Negative: 8, Reports: 3, RuleChurn: 3, Reassoc: 3, SeidClasses: true, Takeover: true},
+	"C05": {MinOps: 10, MaxOps: 35, MaxNodes: 3, MaxSess: 8, Negative: 3, Reports: 4, RuleChurn: 8, Reassoc: 3, ExtraSock: true, Takeover: true, Dups: 2},
+	"C08": {MinOps: 8, MaxOps: 30, MaxNodes: 3, MaxSess: 6, Negative: 10, Reports: 2, RuleChurn: 4, Reassoc: 2, ExtraSock: true, Takeover: true, Dups: 5},
 	"C11": {MinOps: 10, MaxOps: 40, MaxNodes: 2, MaxSess: 4, Negative: 1, Reports: 10, RuleChurn: 8, Reassoc: 1, NoDupCreate: true, URRHeavy: true},
 	"C12": {MinOps: 8, MaxOps: 30, MaxNodes: 1, MaxSess: 1, Negative: 0, Reports: 1, RuleChurn: 14, Reassoc: 0, NoDupCreate: true, URRHeavy: true, OneSession: true},
 }
@@ -129,6 +129,11 @@ func runHist(res *vh.Result, prop string) {
 	rn := &vh.Runner{ExtraSock: p.ExtraSock}
 	res.Cases(total, func(i int, rng *vh.Rng) {
 		h := vh.Generate(rng, p)
+		if prop == "C11" {
+			// a quarter of the histories run on a data plane that removes URRs without a final report (as
+			// forwarder.Empty does): the session then keeps the URR's record until the URR is re-created
+			rn.NoRemoveReport = i%4 == 3
+		}
 		tr := rn.Run(h, nil)
 		if faultCrash(res, i, prop, h, nil, tr) {
 			res.Eval("")
@@ -159,6 +164,7 @@ func runHist(res *vh.Result, prop string) {
 		res.Count("usage_report_ies", int64(an.URepIEs))
 		res.Count("termination_reports", int64(an.TermReports))
 		res.Count("immediate_reports", int64(an.ImmReports))
+		res.Count("retransmissions_checked", int64(an.Dups))
 		if i < 2 {
 			res.Sample(map[string]interface{}{"history": h.Summary(), "ops": h.Ops})
 		}
